@@ -420,3 +420,777 @@ Proof.
   rewrite put_string_bytes by (apply fmt_uaddr_ok; [apply listen_host_ok; exact Hla|exact Hpo]).
   rewrite put_string_bytes by reflexivity. reflexivity.
 Qed.
+
+(* ---------- replies satisfy the grammar ---------- *)
+Lemma reply_head_parse : forall xid rest,
+  get32 (reply_head xid ++ rest) = Some (xid mod 4294967296, enc32 RPC_REPLY ++ enc32 MSG_ACCEPTED ++ enc32 0 ++ enc32 0 ++ rest).
+Proof. intros. unfold reply_head. repeat rewrite <- app_assoc. apply get32_enc32. Qed.
+
+Lemma p_reply_make : forall h xid status data,
+  p_reply h (make_reply xid status data) =
+  if status =? MSG_ACCEPTED then p_result h data
+  else p_reply h (reply_head xid ++ enc32 status ++ (if status =? PROG_MISMATCH then enc32 VERS_LOW ++ enc32 VERS_HIGH else [])).
+Proof.
+  intros h xid status data. unfold make_reply. destruct (status =? MSG_ACCEPTED); [|reflexivity].
+  unfold p_reply. rewrite reply_head_parse. cbn [bind].
+  repeat (rewrite get32_enc32; cbn [bind]).
+  change (RPC_REPLY mod 4294967296 =? 1) with true. change (MSG_ACCEPTED mod 4294967296 =? 0) with true. cbn [negb].
+  unfold p_opaque. rewrite get32_enc32. cbn [bind]. change (0 mod 4294967296) with 0.
+  change (400 <? 0) with false. cbn iota. rewrite take_exact_0. cbn [bind]. change (pad_of 0) with 0.
+  rewrite take_exact_0. cbn [bind forallb]. rewrite get32_enc32. cbn [bind]. reflexivity.
+Qed.
+
+Lemma p_reply_status : forall h xid status, status < 4294967296 -> status <> 0 ->
+  p_reply h (reply_head xid ++ enc32 status ++ (if status =? PROG_MISMATCH then enc32 VERS_LOW ++ enc32 VERS_HIGH else [])) =
+  if status =? 2 then (if negb ((2 <=? h_vers h) && (h_vers h <=? 4)) then Some [] else None)
+  else if (status =? 1) || (status =? 3) || (status =? 4) || (status =? 5) then Some [] else None.
+Proof.
+  intros h xid status Hlt Hnz. unfold p_reply. rewrite reply_head_parse. cbn [bind].
+  repeat (rewrite get32_enc32; cbn [bind]).
+  change (RPC_REPLY mod 4294967296 =? 1) with true. change (MSG_ACCEPTED mod 4294967296 =? 0) with true. cbn [negb].
+  unfold p_opaque. rewrite get32_enc32. cbn [bind]. change (0 mod 4294967296) with 0.
+  change (400 <? 0) with false. cbn iota. rewrite take_exact_0. cbn [bind]. change (pad_of 0) with 0.
+  rewrite take_exact_0. cbn [bind forallb]. rewrite get32_enc32. cbn [bind].
+  rewrite N.mod_small by exact Hlt.
+  destruct (status =? 0) eqn:E0; [apply N.eqb_eq in E0; contradiction|].
+  change PROG_MISMATCH with 2.
+  destruct (status =? 2) eqn:E2.
+  - rewrite get32_enc32. cbn [bind]. rewrite <- (app_nil_r (enc32 VERS_HIGH)). rewrite get32_enc32. cbn [bind].
+    change (VERS_LOW mod 4294967296) with 2. change (VERS_HIGH mod 4294967296) with 4. change (2 <=? 4) with true.
+    cbn [andb]. destruct (negb ((2 <=? h_vers h) && (h_vers h <=? 4))); reflexivity.
+  - destruct ((status =? 1) || (status =? 3) || (status =? 4) || (status =? 5)); reflexivity.
+Qed.
+
+Lemma make_reply_bytes : forall xid status data, bytes_ok data = true -> bytes_ok (make_reply xid status data) = true.
+Proof.
+  intros xid status data H. unfold make_reply, reply_head.
+  rewrite !bytes_ok_app, !enc32_bytes. cbn [andb].
+  destruct (status =? MSG_ACCEPTED).
+  - rewrite bytes_ok_app, enc32_bytes, H. reflexivity.
+  - rewrite bytes_ok_app, enc32_bytes. destruct (status =? PROG_MISMATCH); [|reflexivity].
+    rewrite bytes_ok_app, !enc32_bytes. reflexivity.
+Qed.
+
+Lemma supported_range : forall v, supported v = (2 <=? v) && (v <=? 4).
+Proof.
+  intros v. unfold supported.
+  destruct (N.eqb_spec v 2), (N.eqb_spec v 3), (N.eqb_spec v 4), (N.leb_spec 2 v), (N.leb_spec v 4);
+    cbn; try reflexivity; lia.
+Qed.
+
+(* results of the individual procedures *)
+Lemma p_bool_res : forall b, drop (p_bool (enc_bool b)) = Some [].
+Proof. intros b. rewrite <- (app_nil_r (enc_bool b)), p_bool_enc. reflexivity. Qed.
+Lemma enc_bool_bytes : forall b, bytes_ok (enc_bool b) = true.
+Proof. intros b. apply enc32_bytes. Qed.
+
+Lemma v2_set_res : forall reg c args, exists b, snd (v2_set reg c args) = enc_bool b.
+Proof.
+  intros. unfold v2_set. destruct (v2_refused c); [eexists; reflexivity|].
+  destruct (args4 args) as [[[[p v] t] port]|]; eexists; reflexivity.
+Qed.
+Lemma v2_unset_res : forall reg c args, exists b, snd (v2_unset reg c args) = enc_bool b.
+Proof.
+  intros. unfold v2_unset. destruct (v2_refused c); [eexists; reflexivity|].
+  destruct (args4 args) as [[[[p v] t] port]|]; eexists; reflexivity.
+Qed.
+Lemma rpcb_set_res : forall reg args, exists b, snd (rpcb_set reg args) = enc_bool b.
+Proof.
+  intros. unfold rpcb_set. destruct (rpcb_head args) as [[[[p v] n] s]|]; [|eexists; reflexivity].
+  destruct (get_string s) as [[u s']|]; eexists; reflexivity.
+Qed.
+Lemma rpcb_unset_res : forall reg args, exists b, snd (rpcb_unset reg args) = enc_bool b.
+Proof.
+  intros. unfold rpcb_unset. destruct (rpcb_head args) as [[[[p v] n] s]|]; eexists; reflexivity.
+Qed.
+Lemma v2_getport_res : forall reg args, exists x, v2_getport reg args = enc32 x.
+Proof. intros. unfold v2_getport. destruct (args4 args) as [[[[p v] t] port]|]; eexists; reflexivity. Qed.
+
+Lemma get_port_ok : forall k reg, reg_ok reg = true -> get_port k reg < 4294967296.
+Proof.
+  intros k reg. unfold get_port. induction reg as [|[k' p'] reg IH]; intros Hok; cbn [lookup]; [lia|].
+  cbn [reg_ok forallb] in Hok. apply andb_true_iff in Hok. destruct Hok as [He Hok].
+  destruct (key_eqb k' k); [|apply IH; exact Hok].
+  destruct k' as [[a b] c]. apply entry_ok_inv in He. tauto.
+Qed.
+
+Lemma s_lo6_ok : la_ok s_lo6 = true. Proof. reflexivity. Qed.
+
+Lemma rpcb_getaddr_res : forall la reg args, la_ok la = true -> reg_ok reg = true ->
+  exists s, rpcb_getaddr la reg args = put_string s /\ bytes_ok s = true /\ len s < 4294967296.
+Proof.
+  intros la reg args Hla Hok. unfold rpcb_getaddr.
+  destruct (rpcb_head args) as [[[[p v] n] s]|]; [|exists []; repeat split; cbn; lia].
+  destruct (0 <? get_port (p, v, prot_getaddr n) reg); [|exists []; repeat split; cbn; lia].
+  eexists. split; [reflexivity|]. apply fmt_uaddr_ok; [|apply get_port_ok; exact Hok].
+  destruct (is_v6_netid n); [exact s_lo6_ok|apply listen_host_ok; exact Hla].
+Qed.
+
+Lemma v2_proc_wf : forall reg c h args reg' res, reg_ok reg = true ->
+  h_prog h = 100000 -> h_vers h = 2 -> v2_proc reg c (h_proc h) args = Some (reg', res) ->
+  p_result h res = Some [] /\ bytes_ok res = true.
+Proof.
+  intros reg c h args reg' res Hok Hp Hv H. unfold p_result. rewrite Hp, Hv.
+  change (100000 =? 100000) with true. change (2 =? 2) with true. cbn [negb]. cbv iota.
+  unfold v2_proc in H. change P_NULL with 0 in H. change P_SET with 1 in H. change P_UNSET with 2 in H.
+  change P_GETPORT with 3 in H. change P_DUMP with 4 in H.
+  destruct (h_proc h =? 0) eqn:E0; [inversion H; subst; split; reflexivity|].
+  destruct (h_proc h =? 1) eqn:E1.
+  { cbn [orb]. inversion H as [H1]. destruct (v2_set_res reg c args) as [b Hb]. rewrite H1 in Hb. cbn [snd] in Hb.
+    subst res. split; [apply p_bool_res|apply enc_bool_bytes]. }
+  destruct (h_proc h =? 2) eqn:E2.
+  { cbn [orb]. inversion H as [H1]. destruct (v2_unset_res reg c args) as [b Hb]. rewrite H1 in Hb. cbn [snd] in Hb.
+    subst res. split; [apply p_bool_res|apply enc_bool_bytes]. }
+  cbn [orb]. destruct (h_proc h =? 3) eqn:E3.
+  { inversion H; subst. destruct (v2_getport_res reg' args) as [x Hx]. rewrite Hx.
+    split; [|apply enc32_bytes]. rewrite <- (app_nil_r (enc32 x)), get32_enc32. reflexivity. }
+  destruct (h_proc h =? 4) eqn:E4; [|discriminate].
+  inversion H; subst. split; [|apply v2_dump_bytes]. rewrite (v2_dump_decodes _ Hok). reflexivity.
+Qed.
+
+Lemma rpcb_proc_wf : forall la reg c h args reg' res, la_ok la = true -> reg_ok reg = true ->
+  h_prog h = 100000 -> (h_vers h = 3 \/ h_vers h = 4) -> rpcb_proc la reg c (h_proc h) args = Some (reg', res) ->
+  p_result h res = Some [] /\ bytes_ok res = true.
+Proof.
+  intros la reg c h args reg' res Hla Hok Hp Hv H. unfold p_result. rewrite Hp.
+  change (100000 =? 100000) with true. cbn [negb]. cbv iota.
+  assert (Hv2 : (h_vers h =? 2) = false) by (apply N.eqb_neq; lia).
+  assert (Hv34 : (h_vers h =? 3) || (h_vers h =? 4) = true).
+  { destruct Hv as [-> | ->]; reflexivity. }
+  rewrite Hv2, Hv34. unfold rpcb_proc in H.
+  destruct (h_proc h =? 0) eqn:E0; [inversion H; subst; split; reflexivity|].
+  destruct (h_proc h =? 1) eqn:E1.
+  { cbn [orb]. inversion H as [H1]. destruct (rpcb_set_res reg args) as [b Hb].
+    destruct (is_loopback_addr c).
+    - rewrite H1 in Hb. cbn [snd] in Hb. subst res. split; [apply p_bool_res|apply enc_bool_bytes].
+    - inversion H1; subst. split; [apply p_bool_res|apply enc_bool_bytes]. }
+  destruct (h_proc h =? 2) eqn:E2.
+  { cbn [orb]. inversion H as [H1]. destruct (rpcb_unset_res reg args) as [b Hb].
+    destruct (is_loopback_addr c).
+    - rewrite H1 in Hb. cbn [snd] in Hb. subst res. split; [apply p_bool_res|apply enc_bool_bytes].
+    - inversion H1; subst. split; [apply p_bool_res|apply enc_bool_bytes]. }
+  cbn [orb]. destruct (h_proc h =? 3) eqn:E3.
+  { inversion H; subst. destruct (rpcb_getaddr_res la reg' args Hla Hok) as (s & Hs & Hb & Hl). rewrite Hs.
+    split; [|apply put_string_bytes; exact Hb].
+    rewrite <- (app_nil_r (put_string s)), p_string_put by exact Hl. reflexivity. }
+  destruct (h_proc h =? 4) eqn:E4; [|discriminate].
+  inversion H; subst. split; [|apply rpcb_dump_bytes; assumption].
+  rewrite (rpcb_dump_decodes _ _ Hla Hok). reflexivity.
+Qed.
+
+Lemma dispatch_wellformed : forall la reg c h args, la_ok la = true -> reg_ok reg = true ->
+  wellformed_reply h (snd (dispatch la reg c h args)) = true.
+Proof.
+  intros la reg c h args Hla Hok. unfold wellformed_reply, dispatch.
+  change PMAP_PROG with 100000.
+  destruct (h_prog h =? 100000) eqn:Hp; cbn [negb].
+  2:{ cbn [snd]. rewrite make_reply_bytes by reflexivity. rewrite p_reply_make.
+      change (PROG_UNAVAIL =? MSG_ACCEPTED) with false. cbv iota.
+      rewrite p_reply_status by (cbv; (reflexivity || discriminate)). reflexivity. }
+  apply N.eqb_eq in Hp.
+  destruct (supported (h_vers h)) eqn:Hs; cbn [negb].
+  2:{ cbn [snd]. rewrite make_reply_bytes by reflexivity. rewrite p_reply_make.
+      change (PROG_MISMATCH =? MSG_ACCEPTED) with false. cbv iota.
+      rewrite p_reply_status by (cbv; (reflexivity || discriminate)).
+      change (PROG_MISMATCH =? 2) with true. cbv iota. rewrite <- supported_range, Hs. reflexivity. }
+  assert (Hcases : h_vers h = 2 \/ h_vers h = 3 \/ h_vers h = 4).
+  { unfold supported in Hs. destruct (N.eqb_spec (h_vers h) 2); [auto|].
+    destruct (N.eqb_spec (h_vers h) 3); [auto|]. destruct (N.eqb_spec (h_vers h) 4); [auto|discriminate]. }
+  destruct (h_vers h =? 2) eqn:Hv.
+  - apply N.eqb_eq in Hv.
+    destruct (v2_proc reg c (h_proc h) args) as [[reg' res]|] eqn:E; cbn [snd].
+    + destruct (v2_proc_wf _ _ _ _ _ _ Hok Hp Hv E) as [Hr Hb].
+      rewrite make_reply_bytes by exact Hb. rewrite p_reply_make. change (MSG_ACCEPTED =? MSG_ACCEPTED) with true.
+      cbv iota. rewrite Hr. reflexivity.
+    + rewrite make_reply_bytes by reflexivity. rewrite p_reply_make.
+      change (PROC_UNAVAIL =? MSG_ACCEPTED) with false. cbv iota.
+      rewrite p_reply_status by (cbv; (reflexivity || discriminate)). reflexivity.
+  - apply N.eqb_neq in Hv. assert (Hv34 : h_vers h = 3 \/ h_vers h = 4) by tauto.
+    destruct (rpcb_proc la reg c (h_proc h) args) as [[reg' res]|] eqn:E; cbn [snd].
+    + destruct (rpcb_proc_wf _ _ _ _ _ _ _ Hla Hok Hp Hv34 E) as [Hr Hb].
+      rewrite make_reply_bytes by exact Hb. rewrite p_reply_make. change (MSG_ACCEPTED =? MSG_ACCEPTED) with true.
+      cbv iota. rewrite Hr. reflexivity.
+    + rewrite make_reply_bytes by reflexivity. rewrite p_reply_make.
+      change (PROC_UNAVAIL =? MSG_ACCEPTED) with false. cbv iota.
+      rewrite p_reply_status by (cbv; (reflexivity || discriminate)). reflexivity.
+Qed.
+
+(* ---------- XID echo ---------- *)
+Lemma bytes_eqb_refl : forall a, bytes_eqb a a = true.
+Proof.
+  intros a. unfold bytes_eqb. rewrite Nat.eqb_refl. cbn [andb].
+  induction a as [|x a IH]; [reflexivity|]. cbn [combine forallb fst snd]. rewrite N.eqb_refl. exact IH.
+Qed.
+
+Lemma make_reply_xid : forall xid status data, firstn 4 (make_reply xid status data) = enc32 xid.
+Proof. intros. unfold make_reply, reply_head, enc32. reflexivity. Qed.
+
+Lemma header_xid : forall data h args, bytes_ok data = true -> decode_header data = Some (h, args) ->
+  firstn 4 data = enc32 (h_xid h).
+Proof.
+  intros data h args Hb Hd. destruct data as [|a [|b [|c [|d s']]]]; try discriminate.
+  unfold decode_header in Hd. cbn [get32 bind] in Hd.
+  destruct (get32 s') as [[mt s1]|]; [|discriminate]. cbn [bind] in Hd.
+  destruct (negb (mt =? RPC_CALL)); [discriminate|].
+  destruct (get32 s1) as [[rv s2]|]; [|discriminate]. cbn [bind] in Hd.
+  destruct (get32 s2) as [[prog s3]|]; [|discriminate]. cbn [bind] in Hd.
+  destruct (get32 s3) as [[vers s4]|]; [|discriminate]. cbn [bind] in Hd.
+  destruct (get32 s4) as [[proc s5]|]; [|discriminate]. cbn [bind] in Hd.
+  destruct (skip_auth s5) as [s6|]; [|discriminate]. cbn [bind] in Hd.
+  destruct (skip_auth s6) as [s7|]; [|discriminate]. cbn [bind] in Hd.
+  inversion Hd; subst; clear Hd. cbn [h_xid firstn].
+  unfold bytes_ok in Hb. cbn [forallb] in Hb. unfold is_byte in Hb.
+  repeat rewrite andb_true_iff in Hb. destruct Hb as (Ha & Hb' & Hc & Hd & _).
+  apply N.ltb_lt in Ha, Hb', Hc, Hd. unfold enc32.
+  repeat f_equal; lia.
+Qed.
+
+Lemma handle_call_wellformed : forall la reg c data reg' r, la_ok la = true -> reg_ok reg = true ->
+  handle_call la reg c data = (reg', Some r) ->
+  exists h args, decode_header data = Some (h, args) /\ wellformed_reply h r = true /\
+                 (bytes_ok data = true -> xid_echoed data r = true).
+Proof.
+  intros la reg c data reg' r Hla Hok H. unfold handle_call in H.
+  destruct (decode_header data) as [[h args]|] eqn:Hd; [|discriminate].
+  exists h, args. split; [reflexivity|].
+  pose proof (dispatch_wellformed la reg c h args Hla Hok) as Hw.
+  destruct (dispatch la reg c h args) as [reg1 r1] eqn:E. inversion H; subst. cbn [snd] in Hw.
+  split; [exact Hw|]. intros Hb. unfold xid_echoed.
+  rewrite (header_xid _ _ _ Hb Hd).
+  assert (Hr : r = snd (dispatch la reg c h args)) by (rewrite E; reflexivity).
+  assert (Hx : firstn 4 r = enc32 (h_xid h)).
+  { rewrite Hr. unfold dispatch.
+    destruct (negb (h_prog h =? PMAP_PROG)); [apply make_reply_xid|].
+    destruct (negb (supported (h_vers h))); [apply make_reply_xid|].
+    destruct (if h_vers h =? 2 then v2_proc reg c (h_proc h) args else rpcb_proc la reg c (h_proc h) args)
+      as [[a b]|]; apply make_reply_xid. }
+  rewrite Hx. apply bytes_eqb_refl.
+Qed.
+
+(* ---------- reg_ok is preserved by every event on byte strings ---------- *)
+Lemma bytes_ok_skipn : forall n s, bytes_ok s = true -> bytes_ok (skipn n s) = true.
+Proof.
+  induction n as [|n IH]; intros s H; [exact H|]. destruct s as [|x s]; [reflexivity|].
+  cbn [skipn]. apply IH. unfold bytes_ok in H. cbn [forallb] in H. apply andb_true_iff in H. tauto.
+Qed.
+Lemma take_exact_ok : forall n s a r, bytes_ok s = true -> take_exact n s = Some (a, r) -> bytes_ok r = true.
+Proof.
+  intros n s a r Hb H. unfold take_exact in H. destruct (len s <? n); [discriminate|].
+  inversion H; subst. apply bytes_ok_skipn. exact Hb.
+Qed.
+Lemma skip_auth_ok : forall s r, bytes_ok s = true -> skip_auth s = Some r -> bytes_ok r = true.
+Proof.
+  intros s r Hb H. unfold skip_auth in H.
+  destruct (get32 s) as [[f s1]|] eqn:E1; [|discriminate]. cbn [bind] in H.
+  destruct (get32_ok _ _ _ Hb E1) as [_ Hb1].
+  destruct (get32 s1) as [[n s2]|] eqn:E2; [|discriminate]. cbn [bind] in H.
+  destruct (get32_ok _ _ _ Hb1 E2) as [_ Hb2].
+  destruct (MAX_AUTH <? n); [discriminate|]. destruct (n =? 0); [inversion H; subst; exact Hb2|].
+  destruct (take_exact n s2) as [[a s3]|] eqn:E3; [|discriminate]. cbn [bind] in H.
+  pose proof (take_exact_ok _ _ _ _ Hb2 E3) as Hb3.
+  destruct (take_exact (pad_of n) s3) as [[a' s4]|] eqn:E4; [|discriminate]. cbn [bind] in H.
+  inversion H; subst. exact (take_exact_ok _ _ _ _ Hb3 E4).
+Qed.
+Lemma decode_header_ok : forall data h args, bytes_ok data = true -> decode_header data = Some (h, args) ->
+  bytes_ok args = true.
+Proof.
+  intros data h args Hb H. unfold decode_header in H.
+  destruct (get32 data) as [[x s0]|] eqn:E0; [|discriminate]. cbn [bind] in H.
+  destruct (get32_ok _ _ _ Hb E0) as [_ Hb0].
+  destruct (get32 s0) as [[mt s1]|] eqn:E1; [|discriminate]. cbn [bind] in H.
+  destruct (get32_ok _ _ _ Hb0 E1) as [_ Hb1].
+  destruct (negb (mt =? RPC_CALL)); [discriminate|].
+  destruct (get32 s1) as [[rv s2]|] eqn:E2; [|discriminate]. cbn [bind] in H.
+  destruct (get32_ok _ _ _ Hb1 E2) as [_ Hb2].
+  destruct (get32 s2) as [[pg s3]|] eqn:E3; [|discriminate]. cbn [bind] in H.
+  destruct (get32_ok _ _ _ Hb2 E3) as [_ Hb3].
+  destruct (get32 s3) as [[vs s4]|] eqn:E4; [|discriminate]. cbn [bind] in H.
+  destruct (get32_ok _ _ _ Hb3 E4) as [_ Hb4].
+  destruct (get32 s4) as [[pc s5]|] eqn:E5; [|discriminate]. cbn [bind] in H.
+  destruct (get32_ok _ _ _ Hb4 E5) as [_ Hb5].
+  destruct (skip_auth s5) as [s6|] eqn:E6; [|discriminate]. cbn [bind] in H.
+  pose proof (skip_auth_ok _ _ Hb5 E6) as Hb6.
+  destruct (skip_auth s6) as [s7|] eqn:E7; [|discriminate]. cbn [bind] in H.
+  inversion H; subst. exact (skip_auth_ok _ _ Hb6 E7).
+Qed.
+
+Lemma args4_ok : forall s p v t port, bytes_ok s = true -> args4 s = Some (p, v, t, port) ->
+  entry_ok ((p, v, t), port) = true.
+Proof.
+  intros s p v t port Hb H. unfold args4 in H.
+  destruct (get32 s) as [[a s1]|] eqn:E1; [|discriminate]. cbn [bind] in H.
+  destruct (get32_ok _ _ _ Hb E1) as [Ha Hb1].
+  destruct (get32 s1) as [[b s2]|] eqn:E2; [|discriminate]. cbn [bind] in H.
+  destruct (get32_ok _ _ _ Hb1 E2) as [Hb' Hb2].
+  destruct (get32 s2) as [[c s3]|] eqn:E3; [|discriminate]. cbn [bind] in H.
+  destruct (get32_ok _ _ _ Hb2 E3) as [Hc Hb3].
+  destruct (get32 s3) as [[d s4]|] eqn:E4; [|discriminate]. cbn [bind] in H.
+  destruct (get32_ok _ _ _ Hb3 E4) as [Hd _].
+  inversion H; subst. apply entry_ok_intro; assumption.
+Qed.
+Lemma rpcb_head_ok : forall s p v n r, bytes_ok s = true -> rpcb_head s = Some (p, v, n, r) ->
+  p < 4294967296 /\ v < 4294967296.
+Proof.
+  intros s p v n r Hb H. unfold rpcb_head in H.
+  destruct (get32 s) as [[a s1]|] eqn:E1; [|discriminate]. cbn [bind] in H.
+  destruct (get32_ok _ _ _ Hb E1) as [Ha Hb1].
+  destruct (get32 s1) as [[b s2]|] eqn:E2; [|discriminate]. cbn [bind] in H.
+  destruct (get32_ok _ _ _ Hb1 E2) as [Hb' Hb2].
+  destruct (get_string s2) as [[n' s3]|]; [|discriminate]. cbn [bind] in H.
+  inversion H; subst. split; assumption.
+Qed.
+Lemma uaddr_port_lt : forall u, uaddr_port u < 4294967296.
+Proof.
+  intros u. unfold uaddr_port. destruct u as [|x u]; [lia|].
+  destruct (scan6 (x :: u)) as [[hi lo]|]; [|lia].
+  pose proof (Z.mod_pos_bound (hi * 256 + lo) 4294967296 eq_refl). lia.
+Qed.
+Lemma prot_set_lt : forall n, prot_set n < 4294967296.
+Proof. intros n. unfold prot_set. destruct (is_udp_netid n); cbv; reflexivity. Qed.
+
+Lemma dispatch_reg_ok : forall la reg c h args, bytes_ok args = true -> reg_ok reg = true ->
+  reg_ok (fst (dispatch la reg c h args)) = true.
+Proof.
+  intros la reg c h args Hb Hok. unfold dispatch.
+  destruct (negb (h_prog h =? PMAP_PROG)); [exact Hok|].
+  destruct (negb (supported (h_vers h))); [exact Hok|].
+  destruct (h_vers h =? 2).
+  - unfold v2_proc. destruct (h_proc h =? P_NULL); [exact Hok|].
+    destruct (h_proc h =? P_SET).
+    { cbn [fst]. unfold v2_set. destruct (v2_refused c); [exact Hok|].
+      destruct (args4 args) as [[[[p v] t] port]|] eqn:E; [|exact Hok]. cbn [fst].
+      apply register_ok; [exact Hok|exact (args4_ok _ _ _ _ _ Hb E)]. }
+    destruct (h_proc h =? P_UNSET).
+    { cbn [fst]. unfold v2_unset. destruct (v2_refused c); [exact Hok|].
+      destruct (args4 args) as [[[[p v] t] port]|]; [|exact Hok]. cbn [fst]. apply unregister_ok; exact Hok. }
+    destruct (h_proc h =? P_GETPORT); [exact Hok|]. destruct (h_proc h =? P_DUMP); exact Hok.
+  - unfold rpcb_proc. destruct (h_proc h =? 0); [exact Hok|].
+    destruct (h_proc h =? 1).
+    { cbn [fst]. destruct (is_loopback_addr c); [|exact Hok]. unfold rpcb_set.
+      destruct (rpcb_head args) as [[[[p v] n] s]|] eqn:E; [|exact Hok].
+      destruct (get_string s) as [[u s']|]; [|exact Hok]. cbn [fst].
+      destruct (0 <? uaddr_port u); [|exact Hok].
+      destruct (rpcb_head_ok _ _ _ _ _ Hb E) as [Hp Hv].
+      apply register_ok; [exact Hok|]. apply entry_ok_intro; try assumption; [apply prot_set_lt|apply uaddr_port_lt]. }
+    destruct (h_proc h =? 2).
+    { cbn [fst]. destruct (is_loopback_addr c); [|exact Hok]. unfold rpcb_unset.
+      destruct (rpcb_head args) as [[[[p v] n] s]|]; [|exact Hok]. cbn [fst]. apply unregister_ok; exact Hok. }
+    destruct (h_proc h =? 3); [exact Hok|]. destruct (h_proc h =? 4); exact Hok.
+Qed.
+
+Lemma step_reg_ok : forall la reg e, event_ok e = true -> reg_ok reg = true -> reg_ok (fst (step la reg e)) = true.
+Proof.
+  intros la reg [c data|p v t port|p v t] He Hok; cbn [step event_ok] in *.
+  - unfold handle_call. destruct (decode_header data) as [[h args]|] eqn:Hd; [|exact Hok].
+    pose proof (dispatch_reg_ok la reg c h args (decode_header_ok _ _ _ He Hd) Hok) as H.
+    destruct (dispatch la reg c h args). exact H.
+  - cbn [fst]. apply register_ok; [exact Hok|exact He].
+  - cbn [fst]. apply unregister_ok; exact Hok.
+Qed.
+
+Lemma dispatch_nodup : forall la reg c h args, NoDup (keys reg) -> NoDup (keys (fst (dispatch la reg c h args))).
+Proof.
+  intros la reg c h args Hnd. unfold dispatch.
+  destruct (negb (h_prog h =? PMAP_PROG)); [exact Hnd|].
+  destruct (negb (supported (h_vers h))); [exact Hnd|].
+  destruct (h_vers h =? 2).
+  - unfold v2_proc. destruct (h_proc h =? P_NULL); [exact Hnd|].
+    destruct (h_proc h =? P_SET).
+    { cbn [fst]. unfold v2_set. destruct (v2_refused c); [exact Hnd|].
+      destruct (args4 args) as [[[[p v] t] port]|]; [|exact Hnd]. apply register_nodup; exact Hnd. }
+    destruct (h_proc h =? P_UNSET).
+    { cbn [fst]. unfold v2_unset. destruct (v2_refused c); [exact Hnd|].
+      destruct (args4 args) as [[[[p v] t] port]|]; [|exact Hnd]. apply unregister_nodup; exact Hnd. }
+    destruct (h_proc h =? P_GETPORT); [exact Hnd|]. destruct (h_proc h =? P_DUMP); exact Hnd.
+  - unfold rpcb_proc. destruct (h_proc h =? 0); [exact Hnd|].
+    destruct (h_proc h =? 1).
+    { cbn [fst]. destruct (is_loopback_addr c); [|exact Hnd]. unfold rpcb_set.
+      destruct (rpcb_head args) as [[[[p v] n] s]|]; [|exact Hnd].
+      destruct (get_string s) as [[u s']|]; [|exact Hnd]. cbn [fst].
+      destruct (0 <? uaddr_port u); [|exact Hnd]. apply register_nodup; exact Hnd. }
+    destruct (h_proc h =? 2).
+    { cbn [fst]. destruct (is_loopback_addr c); [|exact Hnd]. unfold rpcb_unset.
+      destruct (rpcb_head args) as [[[[p v] n] s]|]; [|exact Hnd]. apply unregister_nodup; exact Hnd. }
+    destruct (h_proc h =? 3); [exact Hnd|]. destruct (h_proc h =? 4); exact Hnd.
+Qed.
+Lemma step_nodup : forall la reg e, NoDup (keys reg) -> NoDup (keys (fst (step la reg e))).
+Proof.
+  intros la reg [c data|p v t port|p v t] Hnd; cbn [step].
+  - unfold handle_call. destruct (decode_header data) as [[h args]|]; [|exact Hnd].
+    pose proof (dispatch_nodup la reg c h args Hnd) as H. destruct (dispatch la reg c h args). exact H.
+  - apply register_nodup; exact Hnd.
+  - apply unregister_nodup; exact Hnd.
+Qed.
+
+(* every state reached from the empty registry by any history of well-typed events *)
+Definition reachable (la : list N) (reg : registry) : Prop :=
+  exists evs, forallb event_ok evs = true /\ reg = run la [] evs.
+
+Lemma run_inv : forall la evs reg, forallb event_ok evs = true -> reg_ok reg = true -> NoDup (keys reg) ->
+  reg_ok (run la reg evs) = true /\ NoDup (keys (run la reg evs)).
+Proof.
+  intros la evs. unfold run. induction evs as [|e evs IH]; intros reg He Hok Hnd; cbn [fold_left]; [auto|].
+  cbn [forallb] in He. apply andb_true_iff in He. destruct He as [He1 He2].
+  apply IH; [exact He2|apply step_reg_ok; assumption|apply step_nodup; assumption].
+Qed.
+Lemma reachable_inv : forall la reg, reachable la reg -> reg_ok reg = true /\ NoDup (keys reg).
+Proof.
+  intros la reg (evs & He & ->). apply run_inv; [exact He|reflexivity|constructor].
+Qed.
+
+(* ---------- the procedures as operations on the abstract map ---------- *)
+(* a call record whose header decodes to portmapper version [vers], procedure [proc] *)
+Definition pm_call (data : list N) (vers proc xid : N) (args : list N) : Prop :=
+  exists h, decode_header data = Some (h, args) /\ h_prog h = 100000 /\ h_vers h = vers /\ h_proc h = proc /\ h_xid h = xid.
+Definition accepted (xid : N) (res : list N) : list N := make_reply xid MSG_ACCEPTED res.
+Definition port_of (o : option N) : N := match o with Some p => p | None => 0 end.
+
+Lemma handle_call_v2 : forall la reg c data proc xid args, pm_call data 2 proc xid args ->
+  handle_call la reg c data =
+  match v2_proc reg c proc args with
+  | None => (reg, Some (make_reply xid PROC_UNAVAIL []))
+  | Some (reg', res) => (reg', Some (accepted xid res))
+  end.
+Proof.
+  intros la reg c data proc xid args (h & Hd & Hp & Hv & Hpr & Hx). unfold handle_call. rewrite Hd.
+  unfold dispatch. rewrite Hp, Hv, Hpr, Hx. change (negb (100000 =? PMAP_PROG)) with false.
+  change (negb (supported 2)) with false. change (2 =? 2) with true. cbv iota.
+  destruct (v2_proc reg c proc args) as [[reg' res]|]; reflexivity.
+Qed.
+Lemma handle_call_rpcb : forall la reg c data vers proc xid args, vers = 3 \/ vers = 4 -> pm_call data vers proc xid args ->
+  handle_call la reg c data =
+  match rpcb_proc la reg c proc args with
+  | None => (reg, Some (make_reply xid PROC_UNAVAIL []))
+  | Some (reg', res) => (reg', Some (accepted xid res))
+  end.
+Proof.
+  intros la reg c data vers proc xid args Hvers (h & Hd & Hp & Hv & Hpr & Hx). unfold handle_call. rewrite Hd.
+  unfold dispatch. rewrite Hp, Hv, Hpr, Hx. change (negb (100000 =? PMAP_PROG)) with false.
+  assert (H1 : negb (supported vers) = false) by (destruct Hvers as [-> | ->]; reflexivity).
+  assert (H2 : (vers =? 2) = false) by (destruct Hvers as [-> | ->]; reflexivity).
+  rewrite H1, H2. destruct (rpcb_proc la reg c proc args) as [[reg' res]|]; reflexivity.
+Qed.
+
+Lemma map_getport : forall la reg c data xid args p v t x,
+  pm_call data 2 3 xid args -> args4 args = Some (p, v, t, x) ->
+  handle_call la reg c data = (reg, Some (accepted xid (enc32 (port_of (lookup (p, v, t) reg))))).
+Proof.
+  intros la reg c data xid args p v t x Hc Ha. rewrite (handle_call_v2 _ _ _ _ _ _ _ Hc).
+  change (v2_proc reg c 3 args) with (Some (reg, v2_getport reg args)). unfold v2_getport. rewrite Ha. reflexivity.
+Qed.
+
+Definition getaddr_answer (la : list N) (netid : list N) (o : option N) : list N :=
+  match o with
+  | Some port => if 0 <? port then fmt_uaddr (if is_v6_netid netid then s_lo6 else listen_host la) port else []
+  | None => []
+  end.
+Lemma map_getaddr : forall la reg c data vers xid args p v netid rest, vers = 3 \/ vers = 4 ->
+  pm_call data vers 3 xid args -> rpcb_head args = Some (p, v, netid, rest) ->
+  handle_call la reg c data =
+  (reg, Some (accepted xid (put_string (getaddr_answer la netid (lookup (p, v, prot_getaddr netid) reg))))).
+Proof.
+  intros la reg c data vers xid args p v netid rest Hv Hc Ha. rewrite (handle_call_rpcb _ _ _ _ _ _ _ _ Hv Hc).
+  change (rpcb_proc la reg c 3 args) with (Some (reg, rpcb_getaddr la reg args)).
+  unfold rpcb_getaddr, getaddr_answer, get_port. rewrite Ha.
+  destruct (lookup (p, v, prot_getaddr netid) reg) as [port|]; [|reflexivity].
+  destruct (0 <? port); reflexivity.
+Qed.
+
+Lemma map_dump : forall la reg c data xid args, pm_call data 2 4 xid args ->
+  handle_call la reg c data = (reg, Some (accepted xid (v2_dump reg))).
+Proof. intros la reg c data xid args Hc. rewrite (handle_call_v2 _ _ _ _ _ _ _ Hc). reflexivity. Qed.
+Lemma map_rpcb_dump : forall la reg c data vers xid args, vers = 3 \/ vers = 4 -> pm_call data vers 4 xid args ->
+  handle_call la reg c data = (reg, Some (accepted xid (rpcb_dump la reg))).
+Proof. intros la reg c data vers xid args Hv Hc. rewrite (handle_call_rpcb _ _ _ _ _ _ _ _ Hv Hc). reflexivity. Qed.
+
+Lemma map_set : forall la reg c data xid args p v t port,
+  pm_call data 2 1 xid args -> args4 args = Some (p, v, t, port) ->
+  handle_call la reg c data =
+  if local_caller c then (register (p, v, t) port reg, Some (accepted xid (enc_bool true)))
+  else (reg, Some (accepted xid (enc_bool false))).
+Proof.
+  intros la reg c data xid args p v t port Hc Ha. rewrite (handle_call_v2 _ _ _ _ _ _ _ Hc).
+  change (v2_proc reg c 1 args) with (Some (v2_set reg c args)). unfold v2_set, v2_refused.
+  rewrite guard_spec, Ha. destruct (local_caller c); reflexivity.
+Qed.
+Lemma map_unset : forall la reg c data xid args p v t port,
+  pm_call data 2 2 xid args -> args4 args = Some (p, v, t, port) ->
+  handle_call la reg c data =
+  if local_caller c then (unregister (p, v, t) reg, Some (accepted xid (enc_bool true)))
+  else (reg, Some (accepted xid (enc_bool false))).
+Proof.
+  intros la reg c data xid args p v t port Hc Ha. rewrite (handle_call_v2 _ _ _ _ _ _ _ Hc).
+  change (v2_proc reg c 2 args) with (Some (v2_unset reg c args)). unfold v2_unset, v2_refused.
+  rewrite guard_spec, Ha. destruct (local_caller c); reflexivity.
+Qed.
+Lemma map_rpcb_set : forall la reg c data vers xid args p v netid rest uaddr rest', vers = 3 \/ vers = 4 ->
+  pm_call data vers 1 xid args -> rpcb_head args = Some (p, v, netid, rest) -> get_string rest = Some (uaddr, rest') ->
+  handle_call la reg c data =
+  if local_caller c
+  then (if 0 <? uaddr_port uaddr then register (p, v, prot_set netid) (uaddr_port uaddr) reg else reg,
+        Some (accepted xid (enc_bool true)))
+  else (reg, Some (accepted xid (enc_bool false))).
+Proof.
+  intros la reg c data vers xid args p v netid rest uaddr rest' Hv Hc Ha Hu.
+  rewrite (handle_call_rpcb _ _ _ _ _ _ _ _ Hv Hc).
+  change (rpcb_proc la reg c 1 args) with (Some (if is_loopback_addr c then rpcb_set reg args else (reg, enc_bool false))).
+  rewrite guard_spec. unfold rpcb_set. rewrite Ha, Hu. destruct (local_caller c); reflexivity.
+Qed.
+Lemma map_rpcb_unset : forall la reg c data vers xid args p v netid rest, vers = 3 \/ vers = 4 ->
+  pm_call data vers 2 xid args -> rpcb_head args = Some (p, v, netid, rest) ->
+  handle_call la reg c data =
+  if local_caller c then (unregister (p, v, prot_set netid) reg, Some (accepted xid (enc_bool true)))
+  else (reg, Some (accepted xid (enc_bool false))).
+Proof.
+  intros la reg c data vers xid args p v netid rest Hv Hc Ha.
+  rewrite (handle_call_rpcb _ _ _ _ _ _ _ _ Hv Hc).
+  change (rpcb_proc la reg c 2 args) with (Some (if is_loopback_addr c then rpcb_unset reg args else (reg, enc_bool false))).
+  rewrite guard_spec. unfold rpcb_unset. rewrite Ha. destruct (local_caller c); reflexivity.
+Qed.
+
+(* an AUTH_NONE call record built by the obvious encoder decodes to its fields *)
+Definition enc_call (xid rpcvers prog vers proc : N) (args : list N) : list N :=
+  enc32 xid ++ enc32 RPC_CALL ++ enc32 rpcvers ++ enc32 prog ++ enc32 vers ++ enc32 proc ++
+  enc32 0 ++ enc32 0 ++ enc32 0 ++ enc32 0 ++ args.
+Lemma skip_auth_none : forall r, skip_auth (enc32 0 ++ enc32 0 ++ r) = Some r.
+Proof. intros r. unfold skip_auth. rewrite get32_enc32. cbn [bind]. rewrite get32_enc32. reflexivity. Qed.
+Lemma decode_enc_call : forall xid rpcvers prog vers proc args,
+  xid < 4294967296 -> rpcvers < 4294967296 -> prog < 4294967296 -> vers < 4294967296 -> proc < 4294967296 ->
+  decode_header (enc_call xid rpcvers prog vers proc args) =
+  Some ({| h_xid := xid; h_rpcvers := rpcvers; h_prog := prog; h_vers := vers; h_proc := proc |}, args).
+Proof.
+  intros xid rpcvers prog vers proc args H1 H2 H3 H4 H5. unfold decode_header, enc_call.
+  repeat (rewrite get32_enc32; cbn [bind]). change (negb (RPC_CALL mod 4294967296 =? RPC_CALL)) with false. cbv iota.
+  repeat (rewrite get32_enc32; cbn [bind]).
+  rewrite skip_auth_none. cbn [bind]. rewrite skip_auth_none. cbn [bind].
+  rewrite !N.mod_small by assumption. reflexivity.
+Qed.
+Lemma pm_call_enc : forall xid rpcvers vers proc args,
+  xid < 4294967296 -> rpcvers < 4294967296 -> vers < 4294967296 -> proc < 4294967296 ->
+  pm_call (enc_call xid rpcvers 100000 vers proc args) vers proc xid args.
+Proof.
+  intros. eexists. split; [apply decode_enc_call; try assumption; lia|]. cbn. auto.
+Qed.
+
+(* ---------- universal address: what GETADDR / DUMP print, v3/v4 SET parses back ---------- *)
+Lemma dec_aux_acc : forall f n acc, dec_aux f n acc = dec_aux f n [] ++ acc.
+Proof.
+  induction f as [|f IH]; intros n acc; cbn [dec_aux]; [reflexivity|].
+  destruct (n / 10 =? 0); [reflexivity|].
+  rewrite (IH (n / 10) ((48 + n mod 10) :: acc)), (IH (n / 10) [48 + n mod 10]).
+  rewrite <- app_assoc. reflexivity.
+Qed.
+Lemma dec_aux_step : forall f n,
+  dec_aux (S f) n [] = if n / 10 =? 0 then [48 + n mod 10] else dec_aux f (n / 10) [] ++ [48 + n mod 10].
+Proof. intros f n. cbn [dec_aux]. destruct (n / 10 =? 0); [reflexivity|apply dec_aux_acc]. Qed.
+
+Lemma digits_val_snoc : forall t c, digits_val (t ++ [c]) = digits_val t * 10 + (c - 48).
+Proof. intros t c. unfold digits_val. rewrite fold_left_app. reflexivity. Qed.
+
+Lemma dec_aux_val : forall f n, n < 10 ^ N.of_nat f -> digits_val (dec_aux f n []) = n.
+Proof.
+  induction f as [|f IH]; intros n Hn.
+  - cbn in Hn. cbn. lia.
+  - rewrite dec_aux_step. rewrite Nat2N.inj_succ, N.pow_succ_r' in Hn.
+    destruct (n / 10 =? 0) eqn:E.
+    + apply N.eqb_eq in E. unfold digits_val. cbn [fold_left]. lia.
+    + rewrite digits_val_snoc, IH by lia. lia.
+Qed.
+Lemma dec_fuel : forall n, n < 10 ^ N.of_nat (S (N.to_nat (N.log2 n))).
+Proof.
+  intros n. rewrite Nat2N.inj_succ, N2Nat.id.
+  destruct (N.eq_dec n 0) as [->|Hz]; [cbn; lia|].
+  destruct (N.log2_spec n) as [_ H]; [lia|].
+  eapply N.lt_le_trans; [exact H|]. apply N.pow_le_mono_l. lia.
+Qed.
+Lemma dec_val : forall n, digits_val (dec n) = n.
+Proof. intros n. unfold dec. apply dec_aux_val. apply dec_fuel. Qed.
+
+Lemma dec_aux_digits : forall f n, forallb is_digit (dec_aux f n []) = true.
+Proof.
+  induction f as [|f IH]; intros n; [reflexivity|]. rewrite dec_aux_step.
+  assert (Hd : is_digit (48 + n mod 10) = true).
+  { unfold is_digit. apply andb_true_iff. split; apply N.leb_le; lia. }
+  destruct (n / 10 =? 0); [cbn [forallb]; rewrite Hd; reflexivity|].
+  rewrite forallb_app, IH. cbn [forallb]. rewrite Hd. reflexivity.
+Qed.
+Lemma dec_digits : forall n, forallb is_digit (dec n) = true.
+Proof. intros n. apply dec_aux_digits. Qed.
+Lemma dec_nonempty : forall n, dec n <> [].
+Proof.
+  intros n. unfold dec. rewrite dec_aux_step. destruct (n / 10 =? 0); [discriminate|].
+  intros H. apply app_eq_nil in H. destruct H; discriminate.
+Qed.
+
+Lemma digit_facts : forall c, is_digit c = true ->
+  (c =? 10) = false /\ ascii_space c = false /\ (c =? 194) = false /\ (c =? 225) = false /\ (c =? 226) = false /\
+  (c =? 227) = false /\ (c =? 45) = false /\ (c =? 43) = false /\ (c =? UNDERSCORE) = false.
+Proof.
+  intros c H. unfold is_digit in H. apply andb_true_iff in H. destruct H as [H1 H2].
+  apply N.leb_le in H1, H2. unfold ascii_space, UNDERSCORE.
+  repeat split; repeat (apply orb_false_iff; split); apply N.eqb_neq; lia.
+Qed.
+Lemma skip_space_digit : forall c r, is_digit c = true -> skip_space (c :: r) = Some (c :: r).
+Proof.
+  intros c r H. destruct (digit_facts c H) as (H1 & H2 & H3 & H4 & H5 & H6 & _).
+  cbn [skip_space]. rewrite H1, H2, H3, H4, H5, H6. reflexivity.
+Qed.
+(* the token stops at the dot / at the end *)
+Lemma span_num_digits : forall t r, forallb is_digit t = true ->
+  (r = [] \/ exists r', r = DOT :: r') -> span_num (t ++ r) = (t, r).
+Proof.
+  induction t as [|c t IH]; intros r Ht Hr.
+  - cbn [app]. destruct Hr as [->|[r' ->]]; reflexivity.
+  - cbn [forallb] in Ht. apply andb_true_iff in Ht. destruct Ht as [Hc Ht].
+    cbn [app span_num]. rewrite Hc. cbn [orb]. rewrite (IH r Ht Hr). reflexivity.
+Qed.
+Lemma no_underscore : forall t, forallb is_digit t = true -> existsb (N.eqb UNDERSCORE) t = false.
+Proof.
+  induction t as [|c t IH]; intros H; [reflexivity|]. cbn [forallb] in H. apply andb_true_iff in H.
+  destruct H as [Hc Ht]. cbn [existsb]. rewrite (IH Ht), orb_false_r.
+  destruct (digit_facts c Hc) as (_ & _ & _ & _ & _ & _ & _ & _ & H). rewrite N.eqb_sym. exact H.
+Qed.
+
+Lemma scan_int_dec : forall n r, n < 9223372036854775808 -> (r = [] \/ exists r', r = DOT :: r') ->
+  scan_int (dec n ++ r) = Some (Z.of_N n, r).
+Proof.
+  intros n r Hn Hr. pose proof (dec_digits n) as Hd. pose proof (dec_nonempty n) as Hne.
+  pose proof (dec_val n) as Hv. pose proof (span_num_digits (dec n) r Hd Hr) as Hs.
+  pose proof (no_underscore _ Hd) as Hu.
+  destruct (dec n) as [|c t] eqn:E; [congruence|].
+  cbn [forallb] in Hd. apply andb_true_iff in Hd. destruct Hd as [Hc Ht].
+  destruct (digit_facts c Hc) as (_ & _ & _ & _ & _ & _ & H45 & H43 & _).
+  unfold scan_int. cbn [app]. rewrite (skip_space_digit c (t ++ r) Hc). cbn [bind].
+  rewrite H45, H43. cbn [app] in Hs. rewrite Hs. rewrite Hu, Hv.
+  destruct (n <? 9223372036854775808) eqn:El; [reflexivity|apply N.ltb_ge in El; lia].
+Qed.
+
+Definition dotted (a b c d : N) : list N := dec a ++ [DOT] ++ dec b ++ [DOT] ++ dec c ++ [DOT] ++ dec d.
+
+Lemma uaddr_roundtrip : forall a b c d port,
+  a < 9223372036854775808 -> b < 9223372036854775808 -> c < 9223372036854775808 -> d < 9223372036854775808 ->
+  port < 4294967296 -> uaddr_port (fmt_uaddr (dotted a b c d) port) = port.
+Proof.
+  intros a b c d port Ha Hb Hc Hd Hp. unfold uaddr_port, fmt_uaddr, dotted.
+  repeat rewrite <- app_assoc. cbn [app].
+  destruct (dec a ++ DOT :: dec b ++ DOT :: dec c ++ DOT :: dec d ++ DOT :: dec (port / 256) ++ DOT :: dec (port mod 256)) eqn:E.
+  { exfalso. apply app_eq_nil in E. destruct E as [E _]. exact (dec_nonempty a E). }
+  rewrite <- E. clear E. unfold scan6.
+  rewrite scan_int_dec by (try assumption; right; eexists; reflexivity). cbn [bind expect_dot]. rewrite N.eqb_refl. cbv iota. cbn [bind].
+  rewrite scan_int_dec by (try assumption; right; eexists; reflexivity). cbn [bind expect_dot]. rewrite N.eqb_refl. cbv iota. cbn [bind].
+  rewrite scan_int_dec by (try assumption; right; eexists; reflexivity). cbn [bind expect_dot]. rewrite N.eqb_refl. cbv iota. cbn [bind].
+  rewrite scan_int_dec by (try assumption; right; eexists; reflexivity). cbn [bind expect_dot]. rewrite N.eqb_refl. cbv iota. cbn [bind].
+  rewrite scan_int_dec by (try lia; right; eexists; reflexivity). cbn [bind expect_dot]. rewrite N.eqb_refl. cbv iota. cbn [bind].
+  rewrite <- (app_nil_r (dec (port mod 256))). rewrite scan_int_dec by (try lia; left; reflexivity). cbn [bind].
+  lia.
+Qed.
+
+(* ---------- statements of Properties/C27.v that need more than one lemma ---------- *)
+Lemma C27_map_invariant_lemma : forall la reg, reachable la reg ->
+  NoDup (keys reg) /\ reg_ok reg = true /\
+  (forall k port, In (k, port) reg <-> lookup k reg = Some port).
+Proof.
+  intros la reg H. destruct (reachable_inv la reg H) as [Hok Hnd].
+  split; [exact Hnd|]. split; [exact Hok|]. intros k port. apply lookup_in. exact Hnd.
+Qed.
+
+Lemma C27_map_dump_lemma : forall la reg c data xid args, reachable la reg -> pm_call data 2 4 xid args ->
+  exists body, handle_call la reg c data = (reg, Some (accepted xid body)) /\
+               p_pmaplist (S (length body)) body = Some (reg, []) /\
+               forall k port, In (k, port) reg <-> lookup k reg = Some port.
+Proof.
+  intros la reg c data xid args Hr Hc. destruct (reachable_inv la reg Hr) as [Hok Hnd].
+  exists (v2_dump reg). split; [exact (map_dump la reg c data xid args Hc)|].
+  split; [exact (v2_dump_decodes reg Hok)|]. intros k port. apply lookup_in. exact Hnd.
+Qed.
+
+Lemma C27_map_rpcb_dump_lemma : forall la reg c data vers xid args, la_ok la = true -> reachable la reg ->
+  vers = 3 \/ vers = 4 -> pm_call data vers 4 xid args ->
+  exists body, handle_call la reg c data = (reg, Some (accepted xid body)) /\
+               p_rpcblist (S (length body)) body = Some (map (rpcb_view la) reg, []).
+Proof.
+  intros la reg c data vers xid args Hla Hr Hv Hc. destruct (reachable_inv la reg Hr) as [Hok _].
+  exists (rpcb_dump la reg). split; [exact (map_rpcb_dump la reg c data vers xid args Hv Hc)|].
+  exact (rpcb_dump_decodes la reg Hla Hok).
+Qed.
+
+Lemma C27_map_set_lemma : forall la reg c data xid args p v t port reg' r,
+  pm_call data 2 1 xid args -> args4 args = Some (p, v, t, port) -> handle_call la reg c data = (reg', r) ->
+  if local_caller c
+  then r = Some (accepted xid (enc_bool true)) /\
+       forall k, lookup k reg' = if key_eqb (p, v, t) k then Some port else lookup k reg
+  else r = Some (accepted xid (enc_bool false)) /\ reg' = reg.
+Proof.
+  intros la reg c data xid args p v t port reg' r Hc Ha H. rewrite (map_set _ _ _ _ _ _ _ _ _ _ Hc Ha) in H.
+  destruct (local_caller c); inversion H; subst; split; try reflexivity.
+  intros k. apply lookup_register.
+Qed.
+
+Lemma C27_map_unset_lemma : forall la reg c data xid args p v t port reg' r, reachable la reg ->
+  pm_call data 2 2 xid args -> args4 args = Some (p, v, t, port) -> handle_call la reg c data = (reg', r) ->
+  if local_caller c
+  then r = Some (accepted xid (enc_bool true)) /\
+       forall k, lookup k reg' = if key_eqb (p, v, t) k then None else lookup k reg
+  else r = Some (accepted xid (enc_bool false)) /\ reg' = reg.
+Proof.
+  intros la reg c data xid args p v t port reg' r Hr Hc Ha H. rewrite (map_unset _ _ _ _ _ _ _ _ _ _ Hc Ha) in H.
+  destruct (reachable_inv la reg Hr) as [_ Hnd].
+  destruct (local_caller c); inversion H; subst; split; try reflexivity.
+  intros k. apply lookup_unregister. exact Hnd.
+Qed.
+
+Lemma C27_map_rpcb_set_lemma : forall la reg c data vers xid args p v netid rest uaddr rest' reg' r,
+  vers = 3 \/ vers = 4 -> pm_call data vers 1 xid args ->
+  rpcb_head args = Some (p, v, netid, rest) -> get_string rest = Some (uaddr, rest') ->
+  handle_call la reg c data = (reg', r) ->
+  if local_caller c
+  then r = Some (accepted xid (enc_bool true)) /\
+       forall k, lookup k reg' = if (0 <? uaddr_port uaddr) && key_eqb (p, v, prot_set netid) k
+                                 then Some (uaddr_port uaddr) else lookup k reg
+  else r = Some (accepted xid (enc_bool false)) /\ reg' = reg.
+Proof.
+  intros la reg c data vers xid args p v netid rest uaddr rest' reg' r Hv Hc Ha Hu H.
+  rewrite (map_rpcb_set _ _ _ _ _ _ _ _ _ _ _ _ _ Hv Hc Ha Hu) in H.
+  destruct (local_caller c); inversion H; subst; split; try reflexivity.
+  intros k. destruct (0 <? uaddr_port uaddr); [apply lookup_register|reflexivity].
+Qed.
+
+Lemma C27_map_rpcb_unset_lemma : forall la reg c data vers xid args p v netid rest reg' r, reachable la reg ->
+  vers = 3 \/ vers = 4 -> pm_call data vers 2 xid args -> rpcb_head args = Some (p, v, netid, rest) ->
+  handle_call la reg c data = (reg', r) ->
+  if local_caller c
+  then r = Some (accepted xid (enc_bool true)) /\
+       forall k, lookup k reg' = if key_eqb (p, v, prot_set netid) k then None else lookup k reg
+  else r = Some (accepted xid (enc_bool false)) /\ reg' = reg.
+Proof.
+  intros la reg c data vers xid args p v netid rest reg' r Hr Hv Hc Ha H.
+  rewrite (map_rpcb_unset _ _ _ _ _ _ _ _ _ _ _ Hv Hc Ha) in H.
+  destruct (reachable_inv la reg Hr) as [_ Hnd].
+  destruct (local_caller c); inversion H; subst; split; try reflexivity.
+  intros k. apply lookup_unregister. exact Hnd.
+Qed.
+
+Lemma C27_map_api_lemma : forall la reg p v t port k,
+  lookup k (fst (step la reg (ApiRegister p v t port))) = (if key_eqb (p, v, t) k then Some port else lookup k reg) /\
+  (NoDup (keys reg) ->
+   lookup k (fst (step la reg (ApiUnregister p v t))) = if key_eqb (p, v, t) k then None else lookup k reg).
+Proof.
+  intros la reg p v t port k. split; [apply lookup_register|apply lookup_unregister].
+Qed.
+
+Lemma C27_uaddr_roundtrip_lemma : forall a b c d port,
+  a < 256 -> b < 256 -> c < 256 -> d < 256 -> port < 4294967296 ->
+  uaddr_port (fmt_uaddr (dotted a b c d) port) = port.
+Proof.
+  intros a b c d port Ha Hb Hc Hd Hp. apply uaddr_roundtrip; try assumption;
+    eapply N.lt_trans; try eassumption; reflexivity.
+Qed.
+
+Lemma C27_wellformed_reachable_lemma : forall la reg c data reg' r, la_ok la = true -> reachable la reg ->
+  handle_call la reg c data = (reg', Some r) ->
+  exists h args, decode_header data = Some (h, args) /\ wellformed_reply h r = true.
+Proof.
+  intros la reg c data reg' r Hla Hr H. destruct (reachable_inv la reg Hr) as [Hok _].
+  destruct (handle_call_wellformed la reg c data reg' r Hla Hok H) as (h & args & Hd & Hw & _).
+  exists h, args. split; assumption.
+Qed.
